@@ -10,7 +10,7 @@ From Coq Require Import List NArith ZArith Bool Arith Lia Ring Reals RealField L
 From Coquelicot Require Import Coquelicot.
 From PV Require Import Graph.OpFamily Tensor.Kernels Tensor.Index Tensor.KernelProofs Tensor.ProofsGather
   Tensor.ProofsPerm Tensor.ProofsBilinear Scalar.ScalarBase Gen.ScalarGen Scalar.Deriv Scalar.Pown
-  Tensor.AdjCore Tensor.AdjMatmul Tensor.GraphInst Tensor.GraphInstR.
+  Tensor.AdjCore Tensor.AdjMatmul Tensor.AdjScalar Tensor.GraphInst Tensor.GraphInstR.
 Import ListNotations.
 Local Open Scope R_scope.
 
@@ -217,6 +217,26 @@ Proof.
   unfold b_jvp, b_bw_a, b_bw_b, b_fw, bw_pow_a, bw_pow_b, fw_pow, Rpower. field. lra.
 Qed.
 
+Lemma chain2_subl : chain2 (fun x k => k - x) (fun _ _ dx dk => dk - dx) (fun _ _ => True).
+Proof. intros u v du dv Hu Hv _. apply (is_derive_minus (K := R_AbsRing) (V := R_NormedModule) v u 0 dv du Hv Hu). Qed.
+Lemma sclin_deriv sx sk f j bwx bwk : chain2 f j (fun _ _ => True) ->
+  (forall a b da db, f da db = j a b da db) ->
+  desc_deriv (sclin_desc 0 sx sk f bwx bwk) (fun _ => True).
+Proof.
+  intros Hc Hj xs dxs Hx _ _ r. cbn [sclin_desc d_fw d_jvp]. apply cderiv_single.
+  pose proof (ab_map_deriv (scalar_fw sx sk (sc_shape sx sk)) f j (fun _ _ => True)
+                (fun t => nth 0 (xs t) []) (fun t => nth 1 (xs t) []) (nth 0 dxs []) (nth 1 dxs []) Hc (Hx 0%nat) (Hx 1%nat) (fun _ _ => I)) as H.
+  intro i. specialize (H i). unfold ab_eval in *.
+  erewrite (map_ext (fun e : nat * (nat * nat) => f (nth (fst (snd e)) (nth 0 dxs []) 0) (nth (snd (snd e)) (nth 1 dxs []) 0))); [exact H|].
+  intro e. apply Hj.
+Qed.
+Lemma mulsc_deriv sx sk : desc_deriv (mulsc_desc 0 Rplus Rmult sx sk) (fun _ => True).
+Proof.
+  intros xs dxs Hx _ _ r. cbn [mulsc_desc d_fw d_jvp]. apply cderiv_single.
+  apply (ab_map_deriv (scalar_fw sx sk (sc_shape sx sk)) Rmult (fun a b da db => da * b + a * db) (fun _ _ => True)
+           (fun t => nth 0 (xs t) []) (fun t => nth 1 (xs t) []) (nth 0 dxs []) (nth 1 dxs []) chain2_mul (Hx 0%nat) (Hx 1%nat) (fun _ _ => I)).
+Qed.
+
 (* ------------------------------------------------------------------ bilinear triples *)
 Lemma trip_deriv (p : list (nat * (nat * nat))) n (a b : R -> list R) da db :
   (forall e, In e p -> (fst e < n)%nat) -> cderiv a da -> cderiv b db ->
@@ -352,6 +372,10 @@ Proof.
     apply (is_derive_mult u (fun _ => k) 0 u' 0 Hu); [apply (is_derive_const k 0)|intros; apply Rmult_comm].
   - (* Negative *) apply unary_lin_deriv. intros _. apply (map_lin_deriv Ropp 0); [|apply Ropp_0].
     intros u u' Hu. apply (is_derive_opp (K := R_AbsRing) (V := R_NormedModule) u 0 u' Hu).
+  - (* AddScalar *) apply (sclin_deriv sx sk Rplus (fun _ _ da db => da + db) _ _ chain2_add). reflexivity.
+  - (* SubtractScalarR *) apply (sclin_deriv sx sk Rminus (fun _ _ da db => da - db) _ _ chain2_sub). reflexivity.
+  - (* SubtractScalarL *) apply (sclin_deriv sx sk (fun x k => k - x) (fun _ _ dx dk => dk - dx) _ _ chain2_subl). reflexivity.
+  - (* MultiplyScalar *) apply mulsc_deriv.
 Qed.
 
 (* the tangent of every operator of real_family is the derivative of its forward value, on its smooth domain *)
